@@ -1,1 +1,514 @@
-//! crypto rig (verification scaffolding, cfg(rustdds_verif))
+//! CryptoRig (C16): 2-3 real `CryptographicBuiltin` instances in one process.
+//! Each instance plays one participant with one endpoint (writer or reader).
+//! The rig registers local / matched remote entities, moves the real crypto
+//! tokens from one instance to another, encodes at payload / submessage /
+//! message level, carries the result through the crate's own RTPS framing
+//! (`Message::write_to_vec`, DATA / DATAFRAG / SecurePrefix-Body-Postfix) and,
+//! on the receiving side, re-parses the bytes with `Message::read_from_buffer`
+//! before handing them to `decode_*`.  Everything exposed is plain data.
+
+use std::collections::HashMap;
+
+use bytes::Bytes;
+use enumflags2::BitFlags;
+use speedy::{Endianness, Writable};
+
+use crate::{
+  messages::{
+    header::Header,
+    submessages::{
+      elements::parameter_list::ParameterList,
+      submessage::SecuritySubmessage,
+      submessage_flag::FromEndianness,
+      submessages::{
+        AckNack, Data, DataFrag, ReaderSubmessage, SubmessageHeader, SubmessageKind,
+        WriterSubmessage, ACKNACK_Flags, DATAFRAG_Flags, DATA_Flags,
+      },
+    },
+  },
+  rtps::{Message, Submessage, SubmessageBody},
+  security::{
+    access_control::types::{EndpointSecurityAttributes, ParticipantSecurityAttributes},
+    authentication::types::{Challenge, SharedSecret, SharedSecretHandle},
+    cryptographic::{
+      cryptographic_builtin::CryptographicBuiltin,
+      cryptographic_plugin::{CryptoKeyExchange, CryptoKeyFactory, CryptoTransform},
+      CryptoHandle, DecodeOutcome, DecodedSubmessage, EncodedSubmessage,
+    },
+    types::{PluginSecurityAttributesMask, Property},
+  },
+  structure::{
+    guid::{EntityId, EntityKind, GuidPrefix},
+    sequence_number::{FragmentNumber, SequenceNumber, SequenceNumberSet},
+  },
+};
+
+/// protection of one level: 0 = none, 1 = sign (GMAC), 2 = encrypt (GCM)
+pub type Prot = u8;
+
+#[derive(Clone, Debug)]
+pub struct LocalCfg {
+  pub writer: bool,
+  pub rtps: Prot,
+  pub rtps_oa: bool,
+  pub sub: Prot,
+  pub sub_oa: bool,
+  pub pay: Prot,
+  pub k256: bool,
+}
+
+#[derive(Clone, Debug)]
+pub struct Encoded {
+  /// the complete RTPS message as it would travel
+  pub wire: Vec<u8>,
+  /// canonical bytes of what was protected (to compare a decode result with)
+  pub reference: Vec<u8>,
+  /// length of the encoded payload (payload level only, before framing)
+  pub enc_len: usize,
+  /// false when the plugin returned the input unchanged (kind NONE)
+  pub transformed: bool,
+}
+
+#[derive(Clone, Debug, PartialEq, Eq)]
+pub enum Outcome {
+  /// decode produced data: canonical bytes
+  Plain(Vec<u8>),
+  /// no data; short class of the reason (diagnostic only)
+  NoData(String),
+}
+
+pub struct CryptoRig {
+  plugins: Vec<CryptographicBuiltin>,
+  cfg: Vec<Option<LocalCfg>>,
+  part: Vec<Option<CryptoHandle>>,
+  ep: Vec<Option<CryptoHandle>>,
+  rpart: HashMap<(usize, usize), CryptoHandle>,
+  rep: HashMap<(usize, usize), CryptoHandle>,
+}
+
+fn secret(p: usize, q: usize) -> SharedSecretHandle {
+  // symmetric in (p,q): both sides of a pair derive the same secret, as after a handshake
+  let (a, b) = if p < q { (p, q) } else { (q, p) };
+  let mut s = [0u8; 32];
+  s[0] = a as u8 + 1;
+  s[1] = b as u8 + 1;
+  s[31] = 0x5a;
+  let mut c1 = [0x11u8; 32];
+  c1[0] = a as u8;
+  let mut c2 = [0x22u8; 32];
+  c2[0] = b as u8;
+  SharedSecretHandle {
+    shared_secret: SharedSecret::from(s),
+    challenge1: Challenge::from(c1),
+    challenge2: Challenge::from(c2),
+  }
+}
+
+fn mask(bits: u32) -> PluginSecurityAttributesMask {
+  PluginSecurityAttributesMask(0x8000_0000 | bits)
+}
+
+fn keysize(k256: bool) -> Vec<Property> {
+  vec![Property {
+    name: "dds.sec.crypto.keysize".to_string(),
+    value: if k256 { "256" } else { "128" }.to_string(),
+    propagate: false,
+  }]
+}
+
+pub fn prefix_of(p: usize) -> GuidPrefix {
+  let mut b = *b"verifcrypto_";
+  b[11] = b'0' + p as u8;
+  GuidPrefix::new(&b)
+}
+
+fn writer_eid() -> EntityId {
+  EntityId::new([0, 0, 1], EntityKind::WRITER_WITH_KEY_USER_DEFINED)
+}
+fn reader_eid() -> EntityId {
+  EntityId::new([0, 0, 2], EntityKind::READER_WITH_KEY_USER_DEFINED)
+}
+
+fn le() -> Endianness {
+  Endianness::LittleEndian
+}
+
+fn data_submessage(payload: Vec<u8>, sn: i64) -> Submessage {
+  let d = Data {
+    reader_id: reader_eid(),
+    writer_id: writer_eid(),
+    writer_sn: SequenceNumber::new(sn),
+    inline_qos: None,
+    serialized_payload: Some(Bytes::from(payload)),
+  };
+  let flags = BitFlags::<DATA_Flags>::from_endianness(le()) | DATA_Flags::Data;
+  Submessage {
+    header: SubmessageHeader {
+      kind: SubmessageKind::DATA,
+      flags: flags.bits(),
+      content_length: d.len_serialized() as u16,
+    },
+    body: SubmessageBody::Writer(WriterSubmessage::Data(d, flags)),
+    original_bytes: None,
+  }
+}
+
+/// one DATAFRAG carrying `nfrags` fragments of `fsize` bytes of a sample of `sample_size` bytes
+fn datafrag_submessage(payload: Vec<u8>, sn: i64, fsize: u16, sample_size: u32) -> Submessage {
+  let d = DataFrag {
+    reader_id: reader_eid(),
+    writer_id: writer_eid(),
+    writer_sn: SequenceNumber::new(sn),
+    fragment_starting_num: FragmentNumber::new(1),
+    fragments_in_submessage: 1,
+    data_size: sample_size,
+    fragment_size: fsize,
+    inline_qos: None,
+    serialized_payload: Bytes::from(payload),
+  };
+  let flags = BitFlags::<DATAFRAG_Flags>::from_endianness(le());
+  Submessage {
+    header: SubmessageHeader {
+      kind: SubmessageKind::DATA_FRAG,
+      flags: flags.bits(),
+      content_length: d.len_serialized() as u16,
+    },
+    body: SubmessageBody::Writer(WriterSubmessage::DataFrag(d, flags)),
+    original_bytes: None,
+  }
+}
+
+fn acknack_submessage(n: usize) -> Submessage {
+  AckNack {
+    reader_id: reader_eid(),
+    writer_id: writer_eid(),
+    reader_sn_state: SequenceNumberSet::new_empty(SequenceNumber::new(1 + n as i64)),
+    count: n as i32,
+  }
+  .create_submessage(BitFlags::<ACKNACK_Flags>::from_endianness(le()))
+}
+
+fn canon_submessage(s: &Submessage) -> Vec<u8> {
+  let mut v = vec![u8::from(s.header.kind), s.header.flags];
+  v.extend(s.body.write_to_vec_with_ctx(le()).unwrap_or_default());
+  v
+}
+
+fn canon_writer(w: &WriterSubmessage) -> Vec<u8> {
+  let (k, f) = match w {
+    WriterSubmessage::Data(_, f) => (SubmessageKind::DATA, f.bits()),
+    WriterSubmessage::DataFrag(_, f) => (SubmessageKind::DATA_FRAG, f.bits()),
+    WriterSubmessage::Gap(_, f) => (SubmessageKind::GAP, f.bits()),
+    WriterSubmessage::Heartbeat(_, f) => (SubmessageKind::HEARTBEAT, f.bits()),
+    WriterSubmessage::HeartbeatFrag(_, f) => (SubmessageKind::HEARTBEAT_FRAG, f.bits()),
+  };
+  let mut v = vec![u8::from(k), f];
+  v.extend(w.write_to_vec_with_ctx(le()).unwrap_or_default());
+  v
+}
+
+fn canon_reader(r: &ReaderSubmessage) -> Vec<u8> {
+  let (k, f) = match r {
+    ReaderSubmessage::AckNack(_, f) => (SubmessageKind::ACKNACK, f.bits()),
+    ReaderSubmessage::NackFrag(_, f) => (SubmessageKind::NACK_FRAG, f.bits()),
+  };
+  let mut v = vec![u8::from(k), f];
+  v.extend(r.write_to_vec_with_ctx(le()).unwrap_or_default());
+  v
+}
+
+fn canon_message(m: &Message) -> Vec<u8> {
+  let mut v = m.header.write_to_vec_with_ctx(le()).unwrap_or_default();
+  for s in &m.submessages {
+    v.extend(canon_submessage(s));
+  }
+  v
+}
+
+impl CryptoRig {
+  pub fn new(n: usize) -> Self {
+    CryptoRig {
+      plugins: (0..n).map(|_| CryptographicBuiltin::new()).collect(),
+      cfg: vec![None; n],
+      part: vec![None; n],
+      ep: vec![None; n],
+      rpart: HashMap::new(),
+      rep: HashMap::new(),
+    }
+  }
+
+  pub fn is_writer(&self, p: usize) -> Option<bool> {
+    self.cfg[p].as_ref().map(|c| c.writer)
+  }
+
+  /// register_local_participant + register_local_datawriter / _datareader
+  pub fn reg_local(&mut self, p: usize, c: LocalCfg) -> Result<(), String> {
+    if self.part[p].is_some() {
+      return Err("rig: already registered".into());
+    }
+    let mut pa = ParticipantSecurityAttributes::empty();
+    pa.is_rtps_protected = c.rtps > 0;
+    pa.plugin_participant_attributes =
+      mask((if c.rtps == 2 { 0b0001 } else { 0 }) | (if c.rtps_oa { 0b1000 } else { 0 }));
+    let ph = self.plugins[p]
+      .register_local_participant(1 + p as u32, 1 + p as u32, &keysize(c.k256), pa)
+      .map_err(|e| format!("{e:?}"))?;
+    let mut ea = EndpointSecurityAttributes::empty();
+    ea.is_submessage_protected = c.sub > 0;
+    ea.is_payload_protected = c.pay > 0;
+    ea.plugin_endpoint_attributes = mask(
+      (if c.sub == 2 { 0b001 } else { 0 })
+        | (if c.pay == 2 { 0b010 } else { 0 })
+        | (if c.sub_oa { 0b100 } else { 0 }),
+    );
+    let eh = if c.writer {
+      self.plugins[p].register_local_datawriter(ph, &keysize(c.k256), ea)
+    } else {
+      self.plugins[p].register_local_datareader(ph, &keysize(c.k256), ea)
+    }
+    .map_err(|e| format!("{e:?}"))?;
+    self.part[p] = Some(ph);
+    self.ep[p] = Some(eh);
+    self.cfg[p] = Some(c);
+    Ok(())
+  }
+
+  /// p.register_matched_remote_participant(q)
+  pub fn match_part(&mut self, p: usize, q: usize) -> Result<(), String> {
+    if self.rpart.contains_key(&(p, q)) {
+      return Err("rig: already matched".into());
+    }
+    let lp = self.part[p].ok_or("rig: no local participant")?;
+    let h = self.plugins[p]
+      .register_matched_remote_participant(lp, 1 + q as u32, 1 + q as u32, secret(p, q))
+      .map_err(|e| format!("{e:?}"))?;
+    self.rpart.insert((p, q), h);
+    Ok(())
+  }
+
+  /// p.register_matched_remote_datareader / _datawriter for the endpoint of q
+  pub fn match_ep(&mut self, p: usize, q: usize) -> Result<(), String> {
+    if self.rep.contains_key(&(p, q)) {
+      return Err("rig: already matched".into());
+    }
+    let le = self.ep[p].ok_or("rig: no local endpoint")?;
+    let rp = *self.rpart.get(&(p, q)).ok_or("rig: remote participant unknown")?;
+    let w = self.cfg[p].as_ref().map(|c| c.writer).unwrap_or(false);
+    let h = if w {
+      self.plugins[p].register_matched_remote_datareader(le, rp, secret(p, q), false)
+    } else {
+      self.plugins[p].register_matched_remote_datawriter(le, rp, secret(p, q))
+    }
+    .map_err(|e| format!("{e:?}"))?;
+    self.rep.insert((p, q), h);
+    Ok(())
+  }
+
+  /// p creates the tokens meant for q; they are delivered to d, which stores them as "from p"
+  pub fn send_tokens(&mut self, ep_level: bool, p: usize, q: usize, d: usize) -> Result<(), String> {
+    if ep_level {
+      let lp = self.ep[p].ok_or("rig: no local endpoint")?;
+      let rq = *self.rep.get(&(p, q)).ok_or("rig: sender has not matched the receiver")?;
+      let ld = self.ep[d].ok_or("rig: destination has no local endpoint")?;
+      let rd = *self.rep.get(&(d, p)).ok_or("rig: destination has not matched the sender")?;
+      let pw = self.cfg[p].as_ref().map(|c| c.writer).unwrap_or(false);
+      let tokens = if pw {
+        self.plugins[p].create_local_datawriter_crypto_tokens(lp, rq)
+      } else {
+        self.plugins[p].create_local_datareader_crypto_tokens(lp, rq)
+      }
+      .map_err(|e| format!("create: {e:?}"))?;
+      if pw {
+        self.plugins[d].set_remote_datawriter_crypto_tokens(ld, rd, tokens)
+      } else {
+        self.plugins[d].set_remote_datareader_crypto_tokens(ld, rd, tokens)
+      }
+      .map_err(|e| format!("set: {e:?}"))
+    } else {
+      let lp = self.part[p].ok_or("rig: no local participant")?;
+      let rq = *self.rpart.get(&(p, q)).ok_or("rig: sender has not matched the receiver")?;
+      let ld = self.part[d].ok_or("rig: destination has no local participant")?;
+      let rd = *self.rpart.get(&(d, p)).ok_or("rig: destination has not matched the sender")?;
+      let tokens = self.plugins[p]
+        .create_local_participant_crypto_tokens(lp, rq)
+        .map_err(|e| format!("create: {e:?}"))?;
+      self.plugins[d]
+        .set_remote_participant_crypto_tokens(ld, rd, tokens)
+        .map_err(|e| format!("set: {e:?}"))
+    }
+  }
+
+  fn frame(&self, p: usize, subs: Vec<Submessage>) -> Result<Vec<u8>, String> {
+    Message {
+      header: Header::new(prefix_of(p)),
+      submessages: subs,
+    }
+    .write_to_vec_with_ctx(le())
+    .map_err(|e| format!("frame: {e:?}"))
+  }
+
+  /// lvl: 0 payload, 1 submessage, 2 message.  frame: 0 = DATA, 1 = DATAFRAG, 2 = none (payload
+  /// level only: the encoded buffer is handed over as it is).  `plain` is the user payload.
+  pub fn encode(&self, lvl: u8, p: usize, to: &[usize], plain: &[u8], frame: u8, sn: i64) -> Result<Encoded, String> {
+    let writer = self.cfg[p].as_ref().map(|c| c.writer).ok_or("rig: sender not registered")?;
+    match lvl {
+      0 => {
+        let h = self.ep[p].ok_or("rig: no local endpoint")?;
+        let (enc, _qos) = self.plugins[p]
+          .encode_serialized_payload(plain.to_vec(), h)
+          .map_err(|e| format!("{e:?}"))?;
+        let enc_len = enc.len();
+        let transformed = enc != plain;
+        let wire = match frame {
+          0 => self.frame(p, vec![data_submessage(enc, sn)])?,
+          1 => {
+            let fs = plain.len().max(1) as u16;
+            self.frame(p, vec![datafrag_submessage(enc, sn, fs, plain.len() as u32)])?
+          }
+          _ => enc,
+        };
+        Ok(Encoded { wire, reference: plain.to_vec(), enc_len, transformed })
+      }
+      1 => {
+        let h = self.ep[p].ok_or("rig: no local endpoint")?;
+        let mut rh = vec![];
+        for q in to {
+          rh.push(*self.rep.get(&(p, *q)).ok_or("rig: receiver not matched")?);
+        }
+        let inner = if writer {
+          if frame == 1 {
+            datafrag_submessage(plain.to_vec(), sn, plain.len().max(1) as u16, plain.len() as u32)
+          } else {
+            data_submessage(plain.to_vec(), sn)
+          }
+        } else {
+          acknack_submessage(plain.len())
+        };
+        let reference = canon_submessage(&inner);
+        let r = if writer {
+          self.plugins[p].encode_datawriter_submessage(inner, h, rh)
+        } else {
+          self.plugins[p].encode_datareader_submessage(inner, h, rh)
+        }
+        .map_err(|e| format!("{e:?}"))?;
+        let transformed = matches!(r, EncodedSubmessage::Encoded(..));
+        let wire = self.frame(p, Vec::<Submessage>::from(r))?;
+        Ok(Encoded { wire, reference, enc_len: 0, transformed })
+      }
+      _ => {
+        let h = self.part[p].ok_or("rig: no local participant")?;
+        let mut rh = vec![];
+        for q in to {
+          rh.push(*self.rpart.get(&(p, *q)).ok_or("rig: receiver not matched")?);
+        }
+        let mut subs = vec![];
+        if writer {
+          if frame == 1 {
+            subs.push(datafrag_submessage(plain.to_vec(), sn, plain.len().max(1) as u16, plain.len() as u32));
+          } else {
+            subs.push(data_submessage(plain.to_vec(), sn));
+          }
+          subs.push(data_submessage(vec![0, 1, 0, 0, 0xAB], sn + 1));
+        } else {
+          subs.push(acknack_submessage(plain.len()));
+        }
+        let m = Message { header: Header::new(prefix_of(p)), submessages: subs };
+        // what the receiver will see of an unprotected DATA is the padded payload: take the
+        // reference from a serialise / parse round trip of the plain message
+        let plain_wire = m.write_to_vec_with_ctx(le()).map_err(|e| format!("{e:?}"))?;
+        let reparsed = Message::read_from_buffer(&Bytes::from(plain_wire)).map_err(|e| format!("{e:?}"))?;
+        let reference = canon_message(&reparsed);
+        let em = self.plugins[p].encode_rtps_message(m, h, rh).map_err(|e| format!("{e:?}"))?;
+        let wire = em.write_to_vec_with_ctx(le()).map_err(|e| format!("{e:?}"))?;
+        Ok(Encoded { wire, reference, enc_len: 0, transformed: true })
+      }
+    }
+  }
+
+  /// r decodes `wire`, believing that it comes from s.  Handles that r never obtained are
+  /// replaced by a handle value no plugin ever issued (the code must then find no keys).
+  pub fn decode(&self, lvl: u8, r: usize, s: usize, wire: &[u8], frame: u8) -> Outcome {
+    const NOHANDLE: CryptoHandle = 0x7fff_fff0;
+    let nd = |s: &str| Outcome::NoData(s.to_string());
+    if lvl == 0 && frame == 2 {
+      let lr = self.ep[r].unwrap_or(NOHANDLE);
+      let rs = self.rep.get(&(r, s)).copied().unwrap_or(NOHANDLE);
+      return match self.plugins[r].decode_serialized_payload(wire.to_vec(), ParameterList::new(), lr, rs) {
+        Ok(v) => Outcome::Plain(v),
+        Err(_) => nd("err"),
+      };
+    }
+    let msg = match Message::read_from_buffer(&Bytes::copy_from_slice(wire)) {
+      Ok(m) => m,
+      Err(_) => return nd("parse"),
+    };
+    match lvl {
+      0 => {
+        let lr = self.ep[r].unwrap_or(NOHANDLE);
+        let rs = self.rep.get(&(r, s)).copied().unwrap_or(NOHANDLE);
+        let payload = match msg.submessages.first().map(|s| &s.body) {
+          Some(SubmessageBody::Writer(WriterSubmessage::Data(d, _))) => match &d.serialized_payload {
+            Some(b) => b.to_vec(),
+            None => return nd("nopayload"),
+          },
+          Some(SubmessageBody::Writer(WriterSubmessage::DataFrag(d, _))) => d.serialized_payload.to_vec(),
+          _ => return nd("shape"),
+        };
+        match self.plugins[r].decode_serialized_payload(payload, ParameterList::new(), lr, rs) {
+          Ok(v) => Outcome::Plain(v),
+          Err(_) => nd("err"),
+        }
+      }
+      1 => {
+        let lr = self.part[r].unwrap_or(NOHANDLE);
+        let rs = self.rpart.get(&(r, s)).copied().unwrap_or(NOHANDLE);
+        let subs = msg.submessages;
+        if subs.len() != 3 {
+          return nd("shape");
+        }
+        let (pre, body, post) = (&subs[0], &subs[1], &subs[2]);
+        let pre = match &pre.body {
+          SubmessageBody::Security(SecuritySubmessage::SecurePrefix(p, _)) => p.clone(),
+          _ => return nd("shape"),
+        };
+        let post = match &post.body {
+          SubmessageBody::Security(SecuritySubmessage::SecurePostfix(p, _)) => p.clone(),
+          _ => return nd("shape"),
+        };
+        match self.plugins[r].decode_submessage((pre, body.clone(), post), lr, rs) {
+          Ok(DecodeOutcome::Success(DecodedSubmessage::Writer(w, hs))) => {
+            // the message is for r only if r's own endpoint is among the approved ones
+            if self.ep[r].map(|e| hs.contains(&e)).unwrap_or(false) {
+              Outcome::Plain(canon_writer(&w))
+            } else {
+              nd("not_for_my_endpoint")
+            }
+          }
+          Ok(DecodeOutcome::Success(DecodedSubmessage::Reader(w, hs))) => {
+            if self.ep[r].map(|e| hs.contains(&e)).unwrap_or(false) {
+              Outcome::Plain(canon_reader(&w))
+            } else {
+              nd("not_for_my_endpoint")
+            }
+          }
+          Ok(DecodeOutcome::Success(DecodedSubmessage::Interpreter(_))) => nd("interpreter"),
+          Ok(DecodeOutcome::KeysNotFound(_)) => nd("keys"),
+          Ok(DecodeOutcome::ValidatingReceiverSpecificMACFailed) => nd("rmac"),
+          Ok(DecodeOutcome::ParticipantCryptoHandleNotFound(_)) => nd("nohandle"),
+          Err(_) => nd("err"),
+        }
+      }
+      _ => {
+        let lr = self.part[r].unwrap_or(NOHANDLE);
+        let rs = self.rpart.get(&(r, s)).copied().unwrap_or(NOHANDLE);
+        match self.plugins[r].decode_rtps_message(msg, lr, rs) {
+          Ok(DecodeOutcome::Success(m)) => Outcome::Plain(canon_message(&m)),
+          Ok(DecodeOutcome::KeysNotFound(_)) => nd("keys"),
+          Ok(DecodeOutcome::ValidatingReceiverSpecificMACFailed) => nd("rmac"),
+          Ok(DecodeOutcome::ParticipantCryptoHandleNotFound(_)) => nd("nohandle"),
+          Err(_) => nd("err"),
+        }
+      }
+    }
+  }
+}
